@@ -64,7 +64,11 @@ impl Debt {
     #[inline]
     pub(crate) fn pay<T: RefCnt>(&self, ptr: *const T::Base) -> bool {
         self.0
-            // If we don't change anything because there's something else, Relaxed is fine.
+            // If we don't change anything because there's something else, we still need Acquire:
+            // a failure means someone else (the reader returning the debt, or another writer)
+            // emptied the slot with Release, and whoever observes that (a writer walking the slots)
+            // may be the one who eventually hands the value over to be destroyed. The accesses
+            // done under the protection of the debt must happen-before that.
             //
             // The Release works as kind of Mutex. We make sure nothing from the debt-protected
             // sections leaks below this point.
@@ -73,7 +77,7 @@ impl Debt {
             // necessarily observe that increment, but whoever destroys the pointer *must* see the
             // up to date value, with all increments already counted in (the Arc takes care of that
             // part).
-            .compare_exchange(ptr as usize, Self::NONE, Release, Relaxed)
+            .compare_exchange(ptr as usize, Self::NONE, Release, Acquire)
             .is_ok()
     }
 
